@@ -226,7 +226,9 @@ func (i *Int) EuclideanDivVarTime(remainder *Nat, numerator, denominator *Int) (
 		qOut.Set(&qan)
 	}
 	i.Set(&qOut)
-	i.Resize(min(numerator.AnnouncedLen(), numerator.AnnouncedLen()-denominator.TrueLen()+2))
+	// at least one bit: for |numerator| < |denominator| the floored quotient of a negative numerator
+	// is -1 (or 1), although numerator.AnnouncedLen()-denominator.TrueLen()+2 may be 0 or negative
+	i.Resize(max(1, min(numerator.AnnouncedLen(), numerator.AnnouncedLen()-denominator.TrueLen()+2)))
 
 	if remainder != nil {
 		var rOut Int
